@@ -171,7 +171,7 @@ CLAIMED = {
         text="Machine-checked (Coq 8.16), all texts (lists of code points of any length) and all integer "
              "positions, over Gen/text.v (left, right, mid, replace, find, exact, upper, lower, len_, concatenate "
              "re-translated from /repo/src/pycel/lib/text.py on every run) wrapped by Model/Text.v's model of "
-             "strs_wrapper/nums_wrapper/error_string_wrapper. FULL (29 theorems in all, closed under the global "
+             "strs_wrapper/nums_wrapper/error_string_wrapper. FULL (30 theorems in all, closed under the global "
              "context): C20_left_chars, C20_mid_chars, C20_partition (LEFT(s,n)&MID(s,n+1,LEN s)=s), C20_right "
              "(last min(k,LEN) characters), C20_right_fraction (count in [0,1) gives the empty text), C20_replace "
              "(=LEFT&t&MID), C20_negative_counts (#VALUE!), C20_number_rendering (z and z.0 are the digits of z, "
@@ -196,8 +196,8 @@ CLAIMED = {
              "text_fmt and X_text on float and int arguments = text_spec half_even: what the implementation "
              "does), FULL ON ITS DOMAIN C20_text_nontie (x not a rounding tie of |x|*100^k*10^d: = text_spec "
              "half_away, the property's clause), FULL C20_text_integer (every integer x: the clause, integers "
-             "are never ties), C20_text_parsed (both statements for any text accepted by parse_fmt, with "
-             "parse_fmt sound), C20_text_modes (half_away q = floor(q+1/2); the modes agree off the ties and on "
+             "are never ties), C20_text_parsed (both statements for any text accepted by parse_fmt), "
+             "C20_text_grammar_decidable (parse_fmt s = Some F iff fmt_ok F and s = fmt_string F), C20_text_modes (half_away q = floor(q+1/2); the modes agree off the ties and on "
              "a tie differ exactly when the floor is even), digit level C20_text_digits (str_of_Z n is the "
              "base-ten numeral of n without leading zero), C20_text_fraction (the d-digit fraction and its "
              "dropped zeros), C20_text_grouping (the two equations and comma-erasure of group3). The clause as "
